@@ -730,6 +730,15 @@ def features(st):
     walk_rels(st, r)
     if st.get("from"):
         f.add("from:" + st["from"]["shape"])
+
+    def pred(p):
+        if p:
+            f.add("where:" + p[0])
+            if p[0] == "and":
+                pred(p[1])
+                pred(p[2])
+
+    pred(st.get("where"))
     return f
 
 
